@@ -32,6 +32,8 @@ type MPValue struct {
 	Vals    []MPValue
 	Bool    bool
 	Float   float64
+	Off     int // offset of the first byte of this value in the decoded buffer
+	End     int // offset after the last byte
 }
 
 type mpDecoder struct {
@@ -54,6 +56,13 @@ func MPDecode(b []byte) (MPValue, int, error) {
 }
 
 func (d *mpDecoder) value(depth int) (MPValue, error) {
+	off := d.pos
+	v, err := d.value1(depth)
+	v.Off, v.End = off, d.pos
+	return v, err
+}
+
+func (d *mpDecoder) value1(depth int) (MPValue, error) {
 	if depth > 16 {
 		return MPValue{}, fmt.Errorf("nesting too deep")
 	}
